@@ -293,25 +293,32 @@ def specialFns : List String :=
   ["handleStreamStatement", "areEqualSQLVal", "areEqualColIdent", "areEqualSubquery", "areEqualValTuple",
    "areEqualSelectExprs", "areEqualSelectExpr", "areEqualInsertRows", "areEqualExpr"]
 
+/-- the functions that switch on the pattern's type (`typeSwitches`, regenerated): the case of `p`'s type decides;
+a plain case is `q, ok := query.(T); if !ok {return false}; return callee(q…, p…)`, the others are written by hand
+(`special`) -/
+def typeSwitchEval (call : String → Tree → Tree → Bool) (fn : String) (q p : Tree) (special : String → Option Bool) : Bool :=
+  match (typeSwitches.lookup fn).bind (·.find? (·.1 == p.kind)) with
+  | none => false
+  | some (_, callee, qa, pa) =>
+    if callee == "special" then (special p.kind).getD false
+    else if q.kind != p.kind then false
+    else
+      match sel none q p qa, sel none q p pa with
+      | some a, some b => opCmp call callee a b
+      | _, _ => false
+
+/-- `isWherePattern(pattern)`: nil-safe; EqualFold(Type) and areEqualExpr(pattern.Expr, WherePattern.Expr) -/
+def escEval (call : String → Tree → Tree → Bool) (e : String) (x : Tree) : Bool :=
+  e == "isWherePattern" && !x.isNil && foldEq (fld x "Type") (fld wherePattern "Type")
+    && call "areEqualExpr" (fld x "Expr") (fld wherePattern "Expr")
+
 /-- `fn(query, pattern)` for every function of `matching_logic.go` (by name). -/
 def evalFn : Nat → String → Tree → Tree → Bool
   | 0, _, _, _ => false
   | fuel + 1, fn, q, p =>
     let call := evalFn fuel
-    let esc : String → Tree → Bool := fun e x =>
-      -- isWherePattern(pattern): nil-safe; EqualFold(Type) and areEqualExpr(pattern.Expr, WherePattern.Expr)
-      e == "isWherePattern" && !x.isNil && foldEq (fld x "Type") (fld wherePattern "Type")
-        && call "areEqualExpr" (fld x "Expr") (fld wherePattern "Expr")
-    let typeSwitch (special : String → Option Bool) : Bool :=
-      match (typeSwitches.lookup fn).bind (·.find? (·.1 == p.kind)) with
-      | none => false
-      | some (_, callee, qa, pa) =>
-        if callee == "special" then (special p.kind).getD false
-        else if q.kind != p.kind then false
-        else
-          match sel none q p qa, sel none q p pa with
-          | some a, some b => opCmp call callee a b
-          | _, _ => false
+    let esc : String → Tree → Bool := escEval call
+    let typeSwitch (special : String → Option Bool) : Bool := typeSwitchEval call fn q p special
     if !specialFns.contains fn then
       match comparators.lookup fn with
       | some (fin, steps) => runSteps call esc q p fin (steps.length + 1) steps
@@ -420,6 +427,7 @@ theorem evalFn_regular (fuel : Nat) (fn : String) (q p : Tree) (fin : Bool) (ste
           && evalFn fuel "areEqualExpr" (fld x "Expr") (fld wherePattern "Expr"))
         q p fin (steps.length + 1) steps := by
   simp only [evalFn, hs, hl, Bool.not_false, if_true]
+  rfl
 
 /-! ### what a placeholder matches -/
 
